@@ -101,9 +101,22 @@ ND_SIG = 'ml_nonzero_nd mismatch firstcols-differ'
 
 
 def nd_suspect(Sx):
-    """The structure is enumerated by the n-level routine and its levels' first nonzeros are in different
-    columns: nonzero() is then wrong (the signature above), and so is everything computed from it."""
-    return Sx.L >= 4 and any(int(Sx.bidx[k][0][1]) != int(Sx.bidx[0][0][1]) for k in range(1, Sx.L))
+    """Attribution only (never a verdict): a failure of something computed FROM Sx.nonzero() is reported under
+    the signature of the n-level routine iff that routine demonstrably returns wrong positions for Sx."""
+    if Sx.L < 4:
+        return False
+    I = np.zeros(1, dtype=np.int64)
+    J = np.zeros(1, dtype=np.int64)
+    for k in range(Sx.L):
+        b = np.asarray(Sx.bidx[k], dtype=np.int64)
+        I = (I[:, None] * int(Sx.bs[k][0]) + b[None, :, 0]).ravel()
+        J = (J[:, None] * int(Sx.bs[k][1]) + b[None, :, 1]).ravel()
+    try:
+        gi, gj = Sx.nonzero()
+        return not (np.array_equal(np.asarray(gi, dtype=np.int64), I) and
+                    np.array_equal(np.asarray(gj, dtype=np.int64), J))
+    except Exception:
+        return True
 
 
 def shape_class(bs):
